@@ -241,7 +241,7 @@ pub fn c11() -> i32 {
         }
     }
     let n = scns.len();
-    let cfg = ExploreCfg { k: Some(0), wall: Duration::from_secs(if t { 3000 } else { 45 }), ..Default::default() };
+    let cfg = ExploreCfg { k: Some(0), wall: Duration::from_secs(if t { 3000 } else { 45 }), variants: crate::explore::NET_MENU, variant_every: if t { 1 } else { 3 }, ..Default::default() };
     let mut out = explore(&scns, &cfg, &judge);
     for s in &scns {
         let mut h = 0xcbf2_9ce4_8422_2325u64;
